@@ -88,11 +88,11 @@ def obsCommon (ctx : RunCtx) (inp : List Sym) (verdict : String) (toks : List To
       ("strace", Json.str strace)])
   else Json.mkObj base
 
-def modelObs (ctx : RunCtx) (entry : String) (memo : Bool) (inp : List Sym) : Json :=
+def modelObsFrom (ctx : RunCtx) (entry : String) (memo : Bool) (inp : List Sym) (s0 : St) : Json × St :=
   let cfg : Cfg := { ast := ctx.o.ast, memo := memo, rho := rhoOf }
   let fuel := 400000 + 4000 * inp.length
-  let (res, st) := parseF ctx.P cfg inp fuel entry St.init
-  match res with
+  let (res, st) := parseF ctx.P cfg inp fuel entry s0
+  (·, st) <| match res with
   | .panic => Json.mkObj [("v", "panic")]
   | .stuck => Json.mkObj [("v", "stuck")]
   | .ok toks =>
@@ -110,6 +110,16 @@ def modelObs (ctx : RunCtx) (entry : String) (memo : Bool) (inp : List Sym) : Js
   | .fail mt =>
     let (trace, strace) := tracesOf st.trace
     obsCommon ctx inp "fail" [] mt (if ctx.o.ast then "" else trace) strace
+
+def modelObs (ctx : RunCtx) (entry : String) (memo : Bool) (inp : List Sym) : Json :=
+  (modelObsFrom ctx entry memo inp St.init).1
+
+/-- One long-lived model parser: `Buffer = …; Reset(); Parse()` for every input of the history,
+    the state (stale token buffer included) threaded through `St.reset`. -/
+def modelHistory (ctx : RunCtx) (entry : String) (memo : Bool) (hist : List (List Sym)) : List Json :=
+  (hist.foldl (fun (acc : List Json × St) inp =>
+    let (o, st) := modelObsFrom ctx entry memo inp acc.2.reset
+    (acc.1 ++ [o], st)) ([], St.init)).1
 
 /-- Inline-action trace of the spec under -noast: every completed action node, in completion
     order, with the text of the last completed capture. -/
@@ -164,6 +174,9 @@ def runOne (line : String) : String :=
         let k ← c.getObjValAs? String "k"
         let entry ← c.getObjValAs? String "entry"
         let memo := (c.getObjValAs? Bool "memo").toOption.getD true
+        -- "hist": a history of Buffer byte strings run on ONE model parser (Reset between them)
+        if let .ok (hs : List (List Nat)) := c.getObjValAs? (List (List Nat)) "hist" then
+          return Json.mkObj [("k", Json.str k), ("steps", Json.arr (modelHistory ctx entry memo (hs.map runes)).toArray)]
         -- "bytes": the raw bytes of `p.Buffer`, decoded by the Lean model of Go's `[]rune(string)`;
         -- "input": already-decoded runes (kept for callers that have no byte form)
         let inp ← match c.getObjValAs? (List Nat) "bytes" with
